@@ -75,6 +75,9 @@ class Prov:
         """Term describing *one element* produced by iterating `it` (a ('tuple', [..]) for pair-producing iterables)."""
         if depth > 6:
             return ("opaque", "deep")
+        if isinstance(it, ast.Name) and isinstance(env.get(it.id), tuple) and env[it.id] and env[it.id][0] == "iterable":
+            # a parameter bound, at the call site under study, to an iterable whose elements are known (enumerate(anyOf))
+            return env[it.id][1]
         if isinstance(it, (ast.GeneratorExp, ast.ListComp)) and len(it.generators) == 1:
             # ((k, v) for k, v in X.items() if cond): a filtered view; what one element is follows from the comprehension's own target
             g = it.generators[0]
@@ -255,8 +258,8 @@ class Prov:
         return subst(t, binding)
 
     # ------------------------------------------------------------------ terms
-    def env_at(self, node):
-        env = {}
+    def env_at(self, node, base=None):
+        env = dict(base or {})
         loops = list(reversed(self.enclosing_loops(node)))   # outermost first
         for lp in loops:
             self.bind_target(lp.target, lp.iter, env)
